@@ -49,7 +49,10 @@ func VerifEvents() {
 		if verifParam("stitch", 1) == 0 {
 			subs[i].query, subs[i].vars = `subscription { humanChanged { name } }`, nil
 		} else {
-			switch verifChoice("query"+verifItoa(i), 5) {
+			switch verifChoice("query"+verifItoa(i), 6) {
+			case 5:
+				// two sibling objects on the fourth level, each completed by the other service
+				subs[i].query, subs[i].vars = `subscription { humanChanged { meta { section { chief { phone } deputy { phone } } } } }`, nil
 			case 4:
 				// the field to complete is reached through a named fragment, two fields deep
 				subs[i].query, subs[i].vars = `subscription { humanChanged { ...M } } fragment M on Human { name best { phone } }`, nil
